@@ -4,7 +4,11 @@ Input space: texts of 0..N lines, every line one of a small alphabet of line sha
 only, un-indented, indented, trailing blanks, tokens separated by blanks / adjacent, keyword, tab
 indent, quoted string, illegal character; for the span configuration also span opener / closer on
 the same or on a later line), each text given once as one str and once as a list of lines, under
-four tokenizer configurations (plain, synonyms, keywords, one span matcher).
+four tokenizer configurations (plain, synonyms, keywords, one span matcher).  Every legal text is
+parsed with two grammars of the same language of items - one with sequences of optional parts, one
+(`_grammar_prefix`) whose alternatives share common prefixes (of one terminal, of two terminals,
+starting with a non-terminal, nested) behind which the matched alternative goes on and ends with a
+symbol that may match nothing - each built with smart_factorization=True and =False.
 
 Oracle: `ref_scan` below - a hand written character scanner of the harness' own token language
 (no regular expression, nothing of ak.llparser) that yields for every token its kind, its lexeme
@@ -66,6 +70,11 @@ SHAPES_BASE = [
     "n \x0b\r\x1c o",    # 13 vertical tab, lone carriage return, file separator
     # optional parts behind a token: ':' present, two empty children behind it / '!' only / all
     "p: q! u:!;",        # 14
+    # pairs WORD NUM behind which ':' '!' ',' are optional: the alternatives of the symbols that match
+    # them in the 'prefix' grammars share a common prefix (see _grammar_prefix), their last, optional,
+    # part is absent before a blank / before the line break
+    "w 1 v 2, r 3",      # 15
+    "s 5: t 4:!",        # 16
 ]
 SHAPES_SPAN = [
     "/* c */ d",   # opener and closer on the same line, token behind it
@@ -266,11 +275,71 @@ def _grammar(cfg, span_leaf):
     }
 
 
+def _grammar_prefix(cfg, span_leaf):
+    """The same language of items (every text the grammar above accepts is accepted), written with
+    alternatives that share a common prefix; the part behind the prefix ends with a symbol that may
+    match nothing:
+      ITEM     common prefix of two symbols that starts with a non-terminal (OPT_SIGN ATOM)
+      PAIR     common prefix of two terminals (WORD NUM); behind it a second, nested, common prefix (':')
+      COLONED  common prefix of one terminal (':')"""
+    nm = CONFIGS[cfg]['names']
+    atom = [('PAIR',), ('WORD',), (nm['STR'],)]
+    if CONFIGS[cfg]['kw']:
+        atom.append((nm['KW'],))
+    if span_leaf:
+        atom.append((nm['COMMENT'],))
+    return {
+        'E': [('ITEMS',)],
+        'ITEMS': [('ITEM', 'ITEMS'), None],
+        'ITEM': [('OPT_SIGN', 'ATOM', 'COLONED'),
+                 ('OPT_SIGN', 'ATOM', 'OPT_BANG', 'TAIL')],
+        'COLONED': [(nm['COLON'], nm['BANG'], 'TAIL'),
+                    (nm['COLON'], 'TAIL')],
+        'ATOM': atom,
+        'PAIR': [('WORD', 'NUM', nm['COLON'], nm['BANG'], 'OPT_COMMA'),
+                 ('WORD', 'NUM', nm['COLON'], 'OPT_COMMA'),
+                 ('WORD', 'NUM', 'OPT_COMMA')],
+        'OPT_SIGN': [(nm['PLUS'],), None],
+        'OPT_BANG': [(nm['BANG'],), None],
+        'TAIL': [('OPT_COMMA', 'OPT_SEMI')],
+        'OPT_COMMA': [(nm['COMMA'],), None],
+        'OPT_SEMI': [(nm['SEMI'],), None],
+    }
+
+
+# (suffix of the variant name, grammar, smart_factorization)
+GRAMMARS = [('', _grammar, True),
+            ('/plain-factorization', _grammar, False),
+            ('/prefix', _grammar_prefix, True),
+            ('/prefix/plain-factorization', _grammar_prefix, False)]
+
+
+def common_prefix_of(alts, names):
+    """Read off the grammar (not off the parser): the alternatives `alts` of one symbol and the names
+    of the children of a node of that symbol -> (common prefix shared by the alternatives that start
+    like the node's children | None, number of nested common prefixes the children run through)."""
+    if not names:
+        return None, 0
+    group = [tuple(a) for a in alts if a and a[0] == names[0]]
+    if len(group) < 2:
+        return None, 0
+    cp = list(group[0])
+    for a in group[1:]:
+        k = 0
+        while k < min(len(cp), len(a)) and cp[k] == a[k]:
+            k += 1
+        cp = cp[:k]
+    if list(names[:len(cp)]) != cp:
+        return None, 0
+    _, depth = common_prefix_of([a[len(cp):] for a in group], list(names[len(cp):]))
+    return cp, depth + 1
+
+
 _BUILT = {}
 
 
 def built(cfg):
-    """-> (tokenizer | exception, [(variant, skip set, parser | exception)])"""
+    """-> (tokenizer | exception, [(variant, skip set, parser | exception, grammar, smart_factorization)])"""
     if cfg not in _BUILT:
         c = CONFIGS[cfg]
         try:
@@ -280,15 +349,17 @@ def built(cfg):
             tk = e
         parsers = []
         variants = [('skip', None)] + ([('leaf', {'SPACE'})] if c['span'] else [])
-        for vname, skip in variants:
+        for (vname, skip), (gname, gfun, smart) in itertools.product(variants, GRAMMARS):
+            grammar = gfun(cfg, vname == 'leaf')
             try:
-                p = llparser.LLParser(c['re'], productions=_grammar(cfg, vname == 'leaf'),
+                kw = {} if smart else {'smart_factorization': False}
+                p = llparser.LLParser(c['re'], productions={k: list(v) for k, v in grammar.items()},
                                       synonyms=c['synonyms'], span_matchers=c['span_matchers'],
-                                      keywords=c['keywords'], skip_tokens=skip)
+                                      keywords=c['keywords'], skip_tokens=skip, **kw)
                 skipset = set(p.skip_tokens)
             except BaseException as e:      # noqa
                 p, skipset = e, set()
-            parsers.append((vname, skipset, p))
+            parsers.append((vname + gname, skipset, p, grammar, smart))
         _BUILT[cfg] = (tk, parsers)
     return _BUILT[cfg]
 
@@ -442,7 +513,12 @@ def _check_lexical_error(res, exc, err, where, ctx):
                  f"({where}; line is right)")
 
 
-def check_case(case):
+# quick tier: the parsers built with smart_factorization=False parse every text with the span token
+# skipped and without the cleanup only; the thorough tier and a replay run the full product
+_FULL = True
+
+
+def check_case(case, whole_product=True):
     res = Result(case)
     cfg, mode, lines = case['cfg'], case['mode'], list(case['lines'])
     if cfg not in CONFIGS or mode not in MODES or not all(isinstance(x, str) and '\n' not in x for x in lines):
@@ -571,11 +647,13 @@ def check_case(case):
                      f"{ctx}: {END} at {st}-{en} lies before the end {last} of the last token")
 
     # ---------------- trees
-    for vname, skipset, parser in parsers:
+    for vname, skipset, parser, grammar, smart in parsers:
         if isinstance(parser, BaseException):
             res.diag("parser cannot be built", f"LLParser ({cfg}/{vname}) cannot be built: {describe_exc(parser)}")
             continue
         for cleanup in (False, True):
+            if not whole_product and not smart and (cleanup or vname.startswith('leaf')):
+                continue
             try:
                 with time_limit(5.0):
                     root, pexc = parser.parse(text, src_name=SRC, do_cleanup=cleanup), None
@@ -601,15 +679,31 @@ def check_case(case):
                     res.diag("the harness grammar rejects a legal text", f"{where} of {ctx}: {describe_exc(pexc)} (the harness grammar accepts this text)")
                 break
             pairs = [(o, r, f) for o, r, f in zip(body, cand, first_flags) if o[0] not in skipset]
+            # what the reference scan finds between two tokens the parser sees (reach events only)
+            gaps, cur, prev_line = [], set(), None
+            for o, r, f in zip(body, cand, first_flags):
+                if o[0] in skipset:
+                    cur.add('comment' if r.kind == 'COMMENT' else 'blanks')
+                    continue
+                if prev_line is not None and r.start[0] > prev_line:
+                    cur.add('line-break')
+                gaps.append(cur)
+                cur, prev_line = set(), r.end[0]
+            if prev_line is not None and len(lines) > prev_line:
+                cur.add('line-break')
+            gaps.append(cur)
             try:
-                _check_tree(res, root, text, lines, pairs, end_obs, ctx, where, cleanup)
+                _check_tree(res, root, text, lines, pairs, end_obs, ctx, where, cleanup,
+                            grammar, smart, gaps)
             except Garbage as g:
                 res.fail('monotone', 'garbage-position', f"{where} of {ctx}: {g}")
     return res
 
 
-def _check_tree(res, root, text, lines, pairs, end_obs, ctx, where, cleaned):
-    """cleaned trees: the cleanup squashes chains, a leaf may carry the name of the squashed parent"""
+def _check_tree(res, root, text, lines, pairs, end_obs, ctx, where, cleaned, grammar=None, smart=True,
+                gaps=None):
+    """cleaned trees: the cleanup squashes chains, a leaf may carry the name of the squashed parent.
+    grammar / smart / gaps serve the reach events only."""
     TE = llparser.TElement
     leaves = []        # real leaves in document order
     nodes = []         # (node, index of its first leaf, index behind its last leaf, children)
@@ -641,7 +735,8 @@ def _check_tree(res, root, text, lines, pairs, end_obs, ctx, where, cleaned):
         res.diag("tree leaves differ from the reference tokens", f"{where} of {ctx}: leaves {[(x.name, x.value) for x in leaves]} differ from the reference "
                  f"tokens {[(r.name, r.value) for o, r, f in pairs]}")
         return
-    lspans = [span_of(lf) for lf in leaves]
+    spans = {id(n): span_of(n) for n, i0, i1, kids in nodes}
+    lspans = [spans[id(lf)] for lf in leaves]
     end_start = end_obs[2]
 
     def following(i1):
@@ -657,7 +752,7 @@ def _check_tree(res, root, text, lines, pairs, end_obs, ctx, where, cleaned):
 
     below = {id(n): i1 - i0 for n, i0, i1, kids in nodes}     # number of tokens below each node
     for n, i0, i1, kids in nodes:
-        st, en = span_of(n)
+        st, en = spans[id(n)]
         what = f"node {n.name}"
         # get_orig_text against the reference slice of the reported span (supporting), lexeme for leaves
         try:
@@ -693,7 +788,7 @@ def _check_tree(res, root, text, lines, pairs, end_obs, ctx, where, cleaned):
             res.fail('monotone', 'tree-backwards', f"{where} of {ctx}: {what} ends at {en} before its start {st}")
         prev = None
         for c in kids:
-            cs, ce = span_of(c)
+            cs, ce = spans[id(c)]
             if not st <= cs:
                 res.fail('monotone', 'tree-backwards',
                          f"{where} of {ctx}: child {c.name} {cs}-{ce} starts before its parent {n.name} {st}-{en}")
@@ -733,6 +828,28 @@ def _check_tree(res, root, text, lines, pairs, end_obs, ctx, where, cleaned):
                 res.hits.add('three-trailing-empty-children-before-skipped-text')
             if kids and kids[0].is_leaf() and kids[0].value is None:
                 res.hits.add('inner-node-with-empty-first-child')
+            if grammar is not None and not cleaned and n.name in grammar:
+                # the alternatives of this symbol share a common prefix (as written in the grammar) and
+                # the matched alternative goes on behind it
+                names = [c.name for c in kids]
+                cp, depth = common_prefix_of(grammar[n.name], names)
+                if cp is not None and len(names) > len(cp):
+                    if cp[0] in grammar:
+                        kind = 'starting-with-a-non-terminal'
+                    elif len(cp) >= 2:
+                        kind = 'of-two-terminals'
+                    else:
+                        kind = 'of-one-terminal' + ('' if smart else ',plain-factorization')
+                    res.hits.add(f'common-prefix-{kind}:node-goes-on-behind-it')
+                    if ntrail >= 1 and le < following(i1):
+                        res.hits.add(f'common-prefix-{kind}:remainder-ends-with-empty-child-before-skipped-text')
+                        for g in (gaps[i1] if gaps is not None and i1 < len(gaps) else ()):
+                            res.hits.add(f'common-prefix-node-ending-with-empty-child-before-{g}')
+                        if depth >= 2:
+                            res.hits.add('nested-common-prefixes:remainder-ends-with-empty-child-before-'
+                                         'skipped-text' + ('' if smart else ',plain-factorization'))
+                        if i1 >= len(leaves):
+                            res.hits.add('common-prefix-node-ending-with-empty-child-before-end-of-text')
             toks_txt = " ".join(repr(pairs[k][1].lexeme) for k in range(i0, i1))
             if st != fs:
                 res.fail('inner_span', 'start',
@@ -755,7 +872,20 @@ REACH = ['first-on-line-token-without-leading-whitespace', 'span-closing-on-late
          'inner-node-with-empty-last-child', 'inner-node-with-empty-first-child',
          'span-token-as-tree-leaf', 'two-trailing-empty-children-before-skipped-text',
          'three-trailing-empty-children-before-skipped-text',
-         'blank-that-splitlines-breaks-at-inside-a-line', 'token-behind-such-a-blank-in-str-input']
+         'blank-that-splitlines-breaks-at-inside-a-line', 'token-behind-such-a-blank-in-str-input',
+         # alternatives with a common prefix; the matched one goes on behind the prefix and ends with a
+         # symbol that matched nothing; skipped text stands between its last token and the next token
+         'common-prefix-starting-with-a-non-terminal:remainder-ends-with-empty-child-before-skipped-text',
+         'common-prefix-of-two-terminals:remainder-ends-with-empty-child-before-skipped-text',
+         'common-prefix-of-one-terminal:remainder-ends-with-empty-child-before-skipped-text',
+         'common-prefix-of-one-terminal,plain-factorization:remainder-ends-with-empty-child-before-'
+         'skipped-text',
+         'nested-common-prefixes:remainder-ends-with-empty-child-before-skipped-text',
+         'nested-common-prefixes:remainder-ends-with-empty-child-before-skipped-text,plain-factorization',
+         'common-prefix-node-ending-with-empty-child-before-blanks',
+         'common-prefix-node-ending-with-empty-child-before-line-break',
+         'common-prefix-node-ending-with-empty-child-before-comment',
+         'common-prefix-node-ending-with-empty-child-before-end-of-text']
 
 
 def _size(case):
@@ -768,7 +898,7 @@ def _work(chunk):
     for job in chunk:
         case = mk_case(*job)
         try:
-            r = check_case(case)
+            r = check_case(case, _FULL)
         except Exception as e:      # noqa  -- an exception of the harness itself
             import traceback
             return ('harness-error', f"{case!r}: {traceback.format_exc(limit=4)}")
@@ -789,6 +919,8 @@ def _work(chunk):
 
 
 def run(b):
+    global _FULL
+    _FULL = (b.tier != 'quick')
     jobs = list(enumerate_jobs(b.tier))
     for cfg in CFG_ORDER:
         built(cfg)                      # before the fork: shared by the workers
